@@ -1,0 +1,15 @@
+//go:build verif
+
+package optionreflect
+
+import "google.golang.org/protobuf/reflect/protoreflect"
+
+// Verification-only exports (build tag "verif"): the literal layer of the option printer.
+
+func VerifPrototextString(in string) string { return prototextString(in) }
+
+func VerifMarshalSingular(fd protoreflect.FieldDescriptor, val protoreflect.Value) (string, bool) {
+	return marshalSingular(fd, val)
+}
+
+func VerifFloat(n float64, bitSize int) string { return fFloat(n, bitSize) }
